@@ -59,7 +59,12 @@ func (w *workload) pick(rng *rand.Rand) *keyState {
 	defer w.mu.Unlock()
 	i := rng.Intn(len(w.active))
 	k := w.active[i]
-	if k.ops >= w.maxPerKey || atomic.LoadInt64(&k.open) >= w.maxOpen {
+	maxOps, maxOpen := w.maxPerKey, w.maxOpen
+	if k.Family == "list" {
+		// the list model has the largest state space: keep its histories shorter
+		maxOps, maxOpen = w.maxPerKey/2, (w.maxOpen+1)/2
+	}
+	if k.ops >= maxOps || atomic.LoadInt64(&k.open) >= maxOpen {
 		k = w.newKey(k.Family)
 		w.active[i] = k
 	}
